@@ -580,6 +580,12 @@ theorem api_lists_the_routing_map (hw : WF t) (a : ApiRoute) :
     a ∈ apiRoutes t ↔ ∃ h p, ∃ tg ∈ abs t h p, a = apiEntry ⟨h, p, abs t h p⟩ tg :=
   C05Glue.api_lists_abs hw a
 
+/-- **api_lists_each_route_in_order**: restricted to one host and path, the listing *is* the target list of the
+routing map there, in order (and nothing else carries that host and path) -/
+theorem api_lists_each_route_in_order (hw : WF t) (h p : Str) :
+    (apiRoutes t).filter (fun a => a.host == h && a.path == p) = (abs t h p).map (apiEntry ⟨h, p, abs t h p⟩) :=
+  C05Glue.api_at_key hw h p
+
 end glue
 
 /-! ### the forced hypotheses are necessary (witnesses; the same inputs are replayed on the real code from
@@ -708,6 +714,8 @@ example : (derive [("redirect".toList, "+301".toList), ("host".toList, "dst".toL
 
 /-- the admin listing of a two-host table: three targets, hosts ascending; `?raw` reloads like `String()` -/
 example : (apiRoutes C05Rebuild.tab0).length = 3 ∧ ((apiRoutes C05Rebuild.tab0).map (·.host)).head? = some "g".toList := by
+  decide +kernel
+example : ((apiRoutes C05Rebuild.tab0).filter (fun a => a.host == "h".toList && a.path == "/".toList)).length = 2 := by
   decide +kernel
 example : (match loadTable envW pfW (apiRaw C05Rebuild.tab0), loadTable envW pfW (render C05Rebuild.tab0) with
     | .ok a, .ok b => a == b && !a.isEmpty | _, _ => false) = true := by decide +kernel
